@@ -91,9 +91,12 @@ MergeSet(S) ==
 \* interfaces are shared: requirements met through `use` merge into the same definition
 MergedKind(h, key) == MergeSet({r.kind : r \in {x \in AllReqs(h) : Key(x.name) = key}})
 VerLeq(a, b) == a = b \/ VerLess(a, b)
+\* versions are totally ordered (semver::Version's Ord): of two versions that differ in build
+\* metadata only, the one with build metadata is the higher (the universe has one build string)
+Higher(n, m) == VerLess(m.ver, n.ver) \/ (m.ver = n.ver /\ n.build /\ ~m.build)
 CanonOfKey(h, key) ==
   LET ns == {r.name : r \in {x \in Explicit(h) : Key(x.name) = key}}
-  IN CHOOSE n \in ns : \A m \in ns : m.ver = <<>> \/ VerLeq(m.ver, n.ver)
+  IN CHOOSE n \in ns : \A m \in ns : m = n \/ m.ver = <<>> \/ Higher(n, m)
 ContractImports(h) == {[name |-> CanonOfKey(h, k).s, kind |-> MergedKind(h, k)] : k \in {Key(r.name) : r \in Explicit(h)}}
 ContractCanon(h) == [s \in {r.name.s : r \in Explicit(h)} |->
                        CanonOfKey(h, Key((CHOOSE r \in Explicit(h) : r.name.s = s).name)).s]
@@ -207,7 +210,7 @@ AggregateOne(st, req) ==
            old == st.imports[i]
            r == MergeWith(i)
        IN IF ~r.ok THEN failed
-          ELSE IF VerLess(old.n.ver, name.ver)
+          ELSE IF Higher(name, old.n)
                THEN [st EXCEPT !.ifc = r.ifc,
                                !.imports = Append(RemoveAt(st.imports, i), [n |-> name, k |-> r.k, named |-> old.named]),
                                !.redir = (old.n.s :> name.s) @@ [x \in DOMAIN st.redir |-> IF st.redir[x] = old.n.s THEN name.s ELSE st.redir[x]]]
